@@ -79,7 +79,6 @@ def run(prop, tier, seed, replay=None):
         # wild indexes): a crash or hang there is a C05 violation as well
         import p_sched
         sims = p_sched.gen_behaviours(v, "quick", seed)
-        sims = sims[:1200] if tier == "quick" else sims
         for i, sc in enumerate(sims):
             sc["id"] = len(scen) + i
             sc.setdefault("geom", i % 2)
